@@ -746,6 +746,9 @@ fn block_contains_nested_function(block: &Block) -> bool {
             Stmt::Assignment(assignment) => assignment.variables().iter().any(var_contains_nested_function) || assignment.expressions().iter().any(contains_nested_function),
             Stmt::LocalAssignment(assignment) => assignment.expressions().iter().any(contains_nested_function),
             Stmt::FunctionCall(function_call) => function_call_contains_nested_function(function_call),
+            // A `goto` is a simple statement as well (see `is_block_simple`), and it cannot contain a function
+            #[cfg(feature = "lua52")]
+            Stmt::Goto(_) => false,
             _ => unreachable!("testing block_contains_nested_function on a stmt which isn't an assignment/function call"),
         };
 
